@@ -22,3 +22,5 @@ pub fn panic_message(e: &Box<dyn std::any::Any + Send>) -> String {
   else if let Some(s) = e.downcast_ref::<String>() { s.clone() }
   else { "<non-string panic>".to_string() }
 }
+
+pub mod dsl;
